@@ -236,3 +236,21 @@ def test_list_field_environment_variable(monkeypatch):
     s.l = cc.ListField(cc.IntField(), env="CCV7TESTL")
     with pytest.raises(cc.ValidationError):
         s()
+
+
+# ---- C13: nested typed containers are not shared between configurations ----------------------
+def test_nested_typed_containers_not_shared_across_configs():
+    s = cc.Schema()
+    s.d = cc.DictField(cc.StringField(), cc.ListField(cc.IntField()), default={"d": [1]})
+    s.l = cc.ListField(cc.ListField(cc.IntField()), default=[[1]])
+    a, b = s(), s()
+    a.d = b.d
+    a.d["d"].append(7)
+    assert list(b.d["d"]) == [1]
+    a.l = b.l
+    a.l[0].append(7)
+    assert list(b.l[0]) == [1]
+    a.l = [[5]]
+    a.l.extend(b.l)
+    a.l[-1].append(9)
+    assert list(b.l[0]) == [1]
